@@ -39,6 +39,7 @@ def run(ctx):
     before, nv = len(ctx.instances), len(ctx.violations)
     p11.reader(ctx, F)
     p04.rule_k7(ctx, F)
+    p11.t8_board_dependent_rejections(ctx, F)
     relabel(ctx, before, nv, "C17.FAITHFUL")
     ctx.assume("material is sane enough for the i16 running score not to overflow in debug builds (> 36 queens of one colour would)")
 
